@@ -10,6 +10,7 @@ from fractions import Fraction
 
 from aval import AInt, AAgg, AFloat, ATop, ARef, mask, to_signed
 from interp import Interp
+from interp import site_key
 import spec as S
 
 
@@ -305,7 +306,7 @@ def run_cells(ctx, prog, rule, fn_label, path, mkargs, cellsets, spec, out_bits,
                 site = getattr(out, 'site', None)
                 if out.kind == 'panic' and site:
                     # keyed by the failing site (function, assertion kind, ordinal), not by the input: one finding per site
-                    ctx.finding('PANIC', site[0], '%s#%d' % (site[1], site[2]),
+                    ctx.finding('PANIC', *site_key(site),
                                 '%s at %s: reached with every input of cell %s of %s (first witness); the operation does not return in an overflow-checked build'
                                 % (out.value, out.where, fmt_cell(cell), fn_label),
                                 {'cell': cell, 'event': out.kind, 'kind': out.value, 'where': out.where, 'function': path, 'entry': fn_label})
